@@ -17,7 +17,7 @@ RULE = ("(1) cross-process metamorphic: generated scenarios (class with several 
         "covering every level of PYTHONHASHSEED {0,1,4242}, global random.seed {1,2} (explicit-state scenarios), unrelated "
         "activity {none, other objects randomised, draws from the global random module, allocation churn} and diagnostics "
         "{off, debug=1, solve_fail_debug=1, srcinfo=True, VSC_CAPTURE_SRCINFO=1}; all value traces must be identical.  "
-        "(2) snapshot histories in-process: randomize, snap=get_randstate(), set_randstate(snap), one RandState seeding "
+        "(2) snapshot histories in-process: randomize, failing calls, snap=get_randstate(), set_randstate(snap), one RandState seeding "
         "several objects, mutating a state object after handing it over; restoring a snapshot must replay exactly the "
         "values that followed it and snapshots must be independent copies.  non-trivial = scenario with >=2 rand sets, an "
         "ordering directive or dist and >=5 calls compared under >=6 variants / a history with a restore after >=2 draws; "
@@ -197,8 +197,10 @@ def snap_cases(d):
     ops = []
     for _ in range(d.randint(4, 14)):
         r = d.randint(0, 99)
-        if r < 45:
+        if r < 38:
             ops.append(["rand", d.randint(0, 1)])
+        elif r < 45:
+            ops.append(["fail", d.randint(0, 1)])       # a call that raises SolveFailure (contradictory inline constraint)
         elif r < 60:
             ops.append(["snap", d.randint(0, 1)])
         elif r < 80:
@@ -245,9 +247,28 @@ def run_snap(case):
     def txt(extra):
         return SNAP_SRC + "# seed %d\n# ops: %s\n# %s" % (case["seed"], cjson(case["ops"]), extra)
     following = {0: [], 1: []}       # per object: list of lists being recorded
+
+    def failing_call(o):
+        try:
+            with o.randomize_with() as it:
+                it.a == 1
+                it.a == 2
+        except vsc.SolveFailure as e:
+            from ..model import flat
+            flat.defuse(e)
+            flat.scrub(o)
+            return True
+        return False
     for step, op in enumerate(case["ops"]):
         k = op[0]
-        if k == "rand":
+        if k == "fail":
+            o = objs[op[1]]
+            if not failing_call(o):
+                return [], info          # (C02's subject)
+            info["fails"] = info.get("fails", 0) + 1
+            for rec in following[op[1]]:
+                rec.append("FAIL")
+        elif k == "rand":
             o = objs[op[1]]
             o.randomize()
             v = vals(o)
@@ -268,6 +289,10 @@ def run_snap(case):
             following[op[1]] = []
             replay = []
             for j in range(n):
+                if rec[j] == "FAIL":
+                    failing_call(tgt)
+                    replay.append("FAIL")
+                    continue
                 tgt.randomize()
                 replay.append(vals(tgt))
             if n >= 2:
@@ -282,6 +307,10 @@ def run_snap(case):
             following[1 - op[1]] = []
             replay2 = []
             for j in range(n):
+                if rec[j] == "FAIL":
+                    failing_call(other)
+                    replay2.append("FAIL")
+                    continue
                 other.randomize()
                 replay2.append(vals(other))
             if replay2 != rec:
